@@ -1,6 +1,763 @@
-//! placeholder: filled in by the check that owns this sub-command
+//! C08 — scalar operators.
+//!
+//! `vh arith replay <cases.ndjson>`            spec -> impl: every case TLC wrote (operator, operands,
+//!                                             predicted result) is executed in every execution form
+//!                                             and compared with the prediction.
+//! `vh arith record <out.ndjson> <n_int> <n_float> [<cases.ndjson>]`
+//!                                             impl -> spec: a seeded random stream of (op, a, b) over
+//!                                             all of i64 / f64 (plus the float grid of <cases>) is
+//!                                             executed in every form and written as ndjson for
+//!                                             Trace_Arith.tla; float arithmetic is also compared with
+//!                                             the host's f64 (the one thing TLA+ cannot express).
+//!
+//! Execution forms of `a op b` (T = operand type, R = result type):
+//!   lit      `A op B` as source text (folded while parsing where the code folds)
+//!   api      `(a: T, b: T) -> R { return a op b }` called through Function::create_call
+//!   call     the same function called in the language: `f := ...; f(A, B)`
+//!   cell     `x := mut A; y := mut B; (*x) op (*y)`
+//!   half_r   `(a: T) -> R { return a op B }` (right operand literal, left one hidden), host call
+//!   half_l   `(b: T) -> R { return A op b }`
+//!   asg_lit  `c := mut A; c op= B` (value of the assignment and content of the cell afterwards)
+//!   asg_api  `(a: T, b: T) -> (R, R) { c := mut a; r := c op= b; return (r, *c) }`, host call
+//! and of `op a`: lit, api, call, cell.
+use crate::util::{Mismatches, Rng, catch, read_ndjson};
 use serde_json::{Value, json};
+use simplesl::{
+    Code, Interpreter,
+    function::Function,
+    variable::Variable,
+};
+use std::{collections::HashMap, io::Write, sync::Arc};
 
-pub fn run(_args: &[String]) -> Value {
-    json!({"error": "not implemented"})
+// ------------------------------------------------------------------ scalars and outcomes
+
+#[derive(Clone, Copy, PartialEq, Eq, Hash, Debug)]
+enum Sc {
+    I(i64),
+    F(u64),
+    B(bool),
+}
+
+#[derive(Clone, Copy, PartialEq, Eq, Hash, Debug)]
+enum Ty {
+    Int,
+    Float,
+    Bool,
+}
+
+impl Ty {
+    fn name(self) -> &'static str {
+        match self {
+            Ty::Int => "int",
+            Ty::Float => "float",
+            Ty::Bool => "bool",
+        }
+    }
+}
+
+#[derive(Clone, PartialEq, Debug)]
+enum Out {
+    I(i64),
+    F(u64),
+    B(bool),
+    Err(String),
+    Panic(String),
+    Other(String),
+}
+
+fn limbs(x: u64) -> Value {
+    Value::Array((0..8).map(|i| json!((x >> (8 * i)) & 0xff)).collect())
+}
+
+fn from_limbs(v: &Value) -> u64 {
+    let mut x = 0u64;
+    for (i, l) in v.as_array().expect("limbs").iter().enumerate() {
+        x |= (l.as_u64().unwrap() & 0xff) << (8 * i);
+    }
+    x
+}
+
+impl Sc {
+    fn ty(self) -> Ty {
+        match self {
+            Sc::I(_) => Ty::Int,
+            Sc::F(_) => Ty::Float,
+            Sc::B(_) => Ty::Bool,
+        }
+    }
+    fn var(self) -> Variable {
+        match self {
+            Sc::I(n) => Variable::Int(n),
+            Sc::F(b) => Variable::Float(f64::from_bits(b)),
+            Sc::B(b) => Variable::Bool(b),
+        }
+    }
+    /// the operand on the wire (what TLC reads): limbs for int / float, a JSON bool for bool
+    fn wire(self) -> Value {
+        match self {
+            Sc::I(n) => limbs(n as u64),
+            Sc::F(b) => limbs(b),
+            Sc::B(b) => json!(b),
+        }
+    }
+    fn from_wire(ty: Ty, v: &Value) -> Sc {
+        match ty {
+            Ty::Int => Sc::I(from_limbs(v) as i64),
+            Ty::Float => Sc::F(from_limbs(v)),
+            Ty::Bool => Sc::B(v.as_bool().unwrap()),
+        }
+    }
+    fn show(self) -> String {
+        match self {
+            Sc::I(n) => n.to_string(),
+            Sc::F(b) => format!("{:?} (0x{b:016x})", f64::from_bits(b)),
+            Sc::B(b) => b.to_string(),
+        }
+    }
+    fn as_out(self) -> Out {
+        match self {
+            Sc::I(n) => Out::I(n),
+            Sc::F(b) => Out::F(b),
+            Sc::B(b) => Out::B(b),
+        }
+    }
+    /// Source text of a constant expression with this value; None when there is none.
+    /// Negative numbers are written with the unary minus, MIN_INT as `-MAX - 1`; infinities and the
+    /// default NaN as quotients. Whether the text really denotes the value is checked by `lit_ok`.
+    fn lit(self) -> Option<String> {
+        Some(match self {
+            Sc::I(n) if n >= 0 => n.to_string(),
+            Sc::I(i64::MIN) => "(-9223372036854775807 - 1)".to_string(),
+            Sc::I(n) => format!("(-{})", n.unsigned_abs()),
+            Sc::B(b) => b.to_string(),
+            Sc::F(b) => {
+                let x = f64::from_bits(b);
+                if x.is_nan() {
+                    "(0e0 / 0e0)".to_string()
+                } else if x.is_infinite() {
+                    if x > 0.0 { "(1e0 / 0e0)".to_string() } else { "(-1e0 / 0e0)".to_string() }
+                } else if x.is_sign_negative() {
+                    format!("(-{:e})", -x)
+                } else {
+                    format!("{x:e}")
+                }
+            }
+        })
+    }
+}
+
+fn out_json(o: &Out) -> Value {
+    match o {
+        Out::I(n) => json!({"k": "int", "l": limbs(*n as u64)}),
+        Out::F(b) => json!({"k": "float", "l": limbs(*b)}),
+        Out::B(b) => json!({"k": "bool", "v": b}),
+        Out::Err(e) => json!({"k": "err", "e": e}),
+        Out::Panic(m) => json!({"k": "panic", "msg": m}),
+        Out::Other(m) => json!({"k": "other", "msg": m}),
+    }
+}
+
+fn out_show(o: &Out) -> Value {
+    match o {
+        Out::I(n) => json!({"int": n}),
+        Out::F(b) => json!({"float": format!("{:?}", f64::from_bits(*b)), "bits": format!("0x{b:016x}")}),
+        Out::B(b) => json!({"bool": b}),
+        Out::Err(e) => json!({"error": e}),
+        Out::Panic(m) => json!({"panic": m}),
+        Out::Other(m) => json!({"other": m}),
+    }
+}
+
+fn out_from_wire(r: &Value) -> Out {
+    match r["k"].as_str().unwrap_or("") {
+        "int" => Out::I(from_limbs(&r["l"]) as i64),
+        "float" => Out::F(from_limbs(&r["l"])),
+        "bool" => Out::B(r["v"].as_bool().unwrap()),
+        "err" => Out::Err(r["e"].as_str().unwrap().to_string()),
+        other => panic!("unknown result kind on the wire: {other}"),
+    }
+}
+
+fn out_from_var(v: &Variable) -> Out {
+    match v {
+        Variable::Int(n) => Out::I(*n),
+        Variable::Float(x) => Out::F(x.to_bits()),
+        Variable::Bool(b) => Out::B(*b),
+        other => Out::Other(format!("{other:?}")),
+    }
+}
+
+/// name of the error variant (`ZeroDivision`, `CannotDo2`, ...)
+fn kind_of(debug: String) -> String {
+    let id: String = debug.chars().take_while(|c| c.is_alphanumeric() || *c == '_').collect();
+    if id.is_empty() { debug.chars().take(60).collect() } else { id }
+}
+
+// ------------------------------------------------------------------ running the real code
+
+fn parse(text: &str) -> Result<Code, Out> {
+    match catch(|| Code::parse(&Interpreter::without_stdlib(), text)) {
+        Err(p) => Err(Out::Panic(format!("parse: {p}"))),
+        Ok(Err(e)) => Err(Out::Err(kind_of(format!("{e:?}")))),
+        Ok(Ok(c)) => Ok(c),
+    }
+}
+
+fn exec(code: &Code) -> Result<Variable, Out> {
+    match catch(|| code.exec()) {
+        Err(p) => Err(Out::Panic(format!("exec: {p}"))),
+        Ok(Err(e)) => Err(Out::Err(kind_of(format!("{e:?}")))),
+        Ok(Ok(v)) => Ok(v),
+    }
+}
+
+/// result of a program; `.1` tells whether an error came from the parser (folded) or from exec
+fn run_text(text: &str) -> (Out, &'static str) {
+    match parse(text) {
+        Err(o) => (o, "parse"),
+        Ok(code) => match exec(&code) {
+            Err(o) => (o, "exec"),
+            Ok(v) => (out_from_var(&v), "exec"),
+        },
+    }
+}
+
+/// runs the program in an interpreter of its own and reads the cell `c` afterwards
+fn run_text_cell(text: &str) -> (Out, Option<Out>, &'static str) {
+    let code = match parse(text) {
+        Err(o) => return (o, None, "parse"),
+        Ok(c) => c,
+    };
+    let mut interp = Interpreter::without_stdlib();
+    let res = catch(|| code.exec_unscoped(&mut interp));
+    let cell = catch(|| match interp.get_variable("c") {
+        Some(Variable::Mut(m)) => Some(out_from_var(&m.variable.read().unwrap())),
+        _ => None,
+    })
+    .unwrap_or(Some(Out::Panic("reading the cell".into())));
+    let out = match res {
+        Err(p) => Out::Panic(format!("exec: {p}")),
+        Ok(Err(e)) => Out::Err(kind_of(format!("{e:?}"))),
+        Ok(Ok(v)) => out_from_var(&v),
+    };
+    (out, cell, "exec")
+}
+
+#[derive(Default)]
+struct Cache {
+    fns: HashMap<String, Result<Arc<Function>, Out>>,
+    lit_ok: HashMap<Sc, bool>,
+}
+
+impl Cache {
+    fn function(&mut self, text: &str, keep: bool) -> Result<Arc<Function>, Out> {
+        if let Some(f) = self.fns.get(text) {
+            return f.clone();
+        }
+        let f = parse(text).and_then(|c| exec(&c)).and_then(|v| match v {
+            Variable::Function(f) => Ok(f),
+            other => Err(Out::Other(format!("not a function: {other:?}"))),
+        });
+        if keep {
+            self.fns.insert(text.to_string(), f.clone());
+        }
+        f
+    }
+
+    /// does the literal text of the operand really denote the operand? (renderer self-check)
+    fn lit_ok(&mut self, s: Sc) -> bool {
+        if let Some(ok) = self.lit_ok.get(&s) {
+            return *ok;
+        }
+        let ok = match s.lit() {
+            None => false,
+            Some(t) => run_text(&t).0 == s.as_out(),
+        };
+        self.lit_ok.insert(s, ok);
+        ok
+    }
+
+    fn call_api(&mut self, fn_text: &str, keep: bool, args: Vec<Variable>) -> (Out, &'static str) {
+        let f = match self.function(fn_text, keep) {
+            Err(o) => return (o, "parse"),
+            Ok(f) => f,
+        };
+        let code = match catch(|| f.create_call(args)) {
+            Err(p) => return (Out::Panic(format!("create_call: {p}")), "parse"),
+            Ok(Err(e)) => return (Out::Err(kind_of(format!("{e:?}"))), "parse"),
+            Ok(Ok(c)) => c,
+        };
+        match exec(&code) {
+            Err(o) => (o, "exec"),
+            Ok(v) => (out_from_var(&v), "exec"),
+        }
+    }
+}
+
+/// one execution of one case in one form
+struct FormRun {
+    form: &'static str,
+    out: Out,
+    cell: Option<Out>, // compound assignment: content of the cell afterwards
+    program: String,
+    phase: &'static str,
+}
+
+const CMP: [&str; 6] = ["==", "!=", "<", "<=", ">", ">="];
+
+fn result_type(ty: Ty, op: &str) -> &'static str {
+    if CMP.contains(&op) { "bool" } else { ty.name() }
+}
+
+fn has_assign_form(ty: Ty, op: &str) -> bool {
+    match ty {
+        Ty::Int => ["+", "-", "*", "/", "%", "**", "<<", ">>", "&", "|", "^"].contains(&op),
+        Ty::Float => ["+", "-", "*", "/", "**"].contains(&op),
+        Ty::Bool => ["&", "|", "^"].contains(&op),
+    }
+}
+
+fn exec_binary(op: &str, a: Sc, b: Sc, cache: &mut Cache, repeat: bool) -> Vec<FormRun> {
+    let ty = a.ty();
+    let (t, r) = (ty.name(), result_type(ty, op));
+    let mut runs = vec![];
+    let lits = if cache.lit_ok(a) && cache.lit_ok(b) { Some((a.lit().unwrap(), b.lit().unwrap())) } else { None };
+    let fn2 = format!("(a: {t}, b: {t}) -> {r} {{ return a {op} b }}");
+    // --- literal
+    if let Some((la, lb)) = &lits {
+        let program = format!("{la} {op} {lb}");
+        let (out, phase) = run_text(&program);
+        runs.push(FormRun { form: "lit", out, cell: None, program: program.clone(), phase });
+        if repeat {
+            // the same Code executed twice
+            if let Ok(code) = parse(&program) {
+                let _ = exec(&code);
+                let out = match exec(&code) { Ok(v) => out_from_var(&v), Err(o) => o };
+                runs.push(FormRun { form: "lit_again", out, cell: None, program, phase: "exec" });
+            }
+        }
+    }
+    // --- run time, through the host API
+    let (out, phase) = cache.call_api(&fn2, true, vec![a.var(), b.var()]);
+    runs.push(FormRun { form: "api", out, cell: None, program: format!("{fn2} called with ({}, {})", a.show(), b.show()), phase });
+    if repeat {
+        let (out, phase) = cache.call_api(&fn2, true, vec![a.var(), b.var()]);
+        runs.push(FormRun { form: "api_again", out, cell: None, program: format!("{fn2} called again with ({}, {})", a.show(), b.show()), phase });
+    }
+    if let Some((la, lb)) = &lits {
+        // --- run time, call made in the language
+        let program = format!("f := {fn2}; f({la}, {lb})");
+        let (out, phase) = run_text(&program);
+        runs.push(FormRun { form: "call", out, cell: None, program, phase });
+        // --- run time, operands read from cells
+        let program = format!("x := mut {la}; y := mut {lb}; (*x) {op} (*y)");
+        let (out, phase) = run_text(&program);
+        runs.push(FormRun { form: "cell", out, cell: None, program, phase });
+        // --- one operand literal, the other hidden
+        let f = format!("(a: {t}) -> {r} {{ return a {op} {lb} }}");
+        let (out, phase) = cache.call_api(&f, false, vec![a.var()]);
+        runs.push(FormRun { form: "half_r", out, cell: None, program: format!("{f} called with ({})", a.show()), phase });
+        let f = format!("(b: {t}) -> {r} {{ return {la} {op} b }}");
+        let (out, phase) = cache.call_api(&f, false, vec![b.var()]);
+        runs.push(FormRun { form: "half_l", out, cell: None, program: format!("{f} called with ({})", b.show()), phase });
+    }
+    // --- compound assignment
+    if has_assign_form(ty, op) {
+        if let Some((la, lb)) = &lits {
+            let program = format!("c := mut {la}; c {op}= {lb}");
+            let (out, cell, phase) = run_text_cell(&program);
+            runs.push(FormRun { form: "asg_lit", out, cell, program, phase });
+        }
+        let f = format!("(a: {t}, b: {t}) -> ({r}, {r}) {{ c := mut a; r := c {op}= b; return (r, *c) }}");
+        let program = format!("{f} called with ({}, {})", a.show(), b.show());
+        let fun = cache.function(&f, true);
+        let (out, cell, phase) = match fun {
+            Err(o) => (o, None, "parse"),
+            Ok(fun) => match catch(|| fun.create_call(vec![a.var(), b.var()])) {
+                Err(p) => (Out::Panic(format!("create_call: {p}")), None, "parse"),
+                Ok(Err(e)) => (Out::Err(kind_of(format!("{e:?}"))), None, "parse"),
+                Ok(Ok(code)) => match exec(&code) {
+                    Err(o) => (o, None, "exec"),
+                    Ok(Variable::Tuple(es)) if es.len() == 2 => (out_from_var(&es[0]), Some(out_from_var(&es[1])), "exec"),
+                    Ok(v) => (Out::Other(format!("{v:?}")), None, "exec"),
+                },
+            },
+        };
+        runs.push(FormRun { form: "asg_api", out, cell, program, phase });
+    }
+    runs
+}
+
+fn un_text(op: &str) -> &'static str {
+    match op {
+        "neg" => "-",
+        "not" => "!",
+        other => panic!("unknown unary operator {other}"),
+    }
+}
+
+fn exec_unary(op: &str, a: Sc, cache: &mut Cache) -> Vec<FormRun> {
+    let t = a.ty().name();
+    let o = un_text(op);
+    let mut runs = vec![];
+    let fn1 = format!("(a: {t}) -> {t} {{ return {o}a }}");
+    let lit = if cache.lit_ok(a) { a.lit() } else { None };
+    if let Some(la) = &lit {
+        let program = format!("{o}{la}");
+        let (out, phase) = run_text(&program);
+        runs.push(FormRun { form: "lit", out, cell: None, program, phase });
+    }
+    let (out, phase) = cache.call_api(&fn1, true, vec![a.var()]);
+    runs.push(FormRun { form: "api", out, cell: None, program: format!("{fn1} called with ({})", a.show()), phase });
+    if let Some(la) = &lit {
+        let program = format!("f := {fn1}; f({la})");
+        let (out, phase) = run_text(&program);
+        runs.push(FormRun { form: "call", out, cell: None, program, phase });
+        let program = format!("x := mut {la}; {o}(*x)");
+        let (out, phase) = run_text(&program);
+        runs.push(FormRun { form: "cell", out, cell: None, program, phase });
+    }
+    runs
+}
+
+// ------------------------------------------------------------------ bookkeeping shared by both directions
+
+struct Stats {
+    cases: u64,
+    executions: u64,
+    by_form: HashMap<&'static str, u64>,
+    errors_at_parse: u64,
+    errors_at_exec: u64,
+    lit_unavailable: u64,
+    distinct: std::collections::HashSet<(String, Sc, Option<Sc>)>,
+}
+
+impl Stats {
+    fn new() -> Self {
+        Stats { cases: 0, executions: 0, by_form: HashMap::new(), errors_at_parse: 0, errors_at_exec: 0,
+                lit_unavailable: 0, distinct: Default::default() }
+    }
+    fn note(&mut self, op: &str, a: Sc, b: Option<Sc>, runs: &[FormRun]) {
+        self.cases += 1;
+        self.executions += runs.len() as u64;
+        for r in runs {
+            *self.by_form.entry(r.form).or_insert(0) += 1;
+            if matches!(r.out, Out::Err(_)) {
+                if r.phase == "parse" { self.errors_at_parse += 1 } else { self.errors_at_exec += 1 }
+            }
+        }
+        if !runs.iter().any(|r| r.form == "lit") {
+            self.lit_unavailable += 1;
+        }
+        // non-trivial: executed in at least three forms, one of them a run-time form
+        if runs.len() >= 3 && runs.iter().any(|r| r.form == "api") {
+            self.distinct.insert((format!("{}{op}", a.ty().name()), a, b));
+        }
+    }
+    fn json(&self) -> Value {
+        json!({"cases": self.cases, "executions": self.executions, "by_form": self.by_form,
+               "errors_reported_while_parsing": self.errors_at_parse, "errors_reported_by_exec": self.errors_at_exec,
+               "cases_without_literal_form": self.lit_unavailable, "distinct_nontrivial": self.distinct.len()})
+    }
+}
+
+fn case_json(t: &str, op: &str, a: Sc, b: Option<Sc>) -> Value {
+    json!({"t": t, "op": op, "a": a.show(), "b": b.map(|b| b.show())})
+}
+
+fn ty_of_tag(t: &str) -> Ty {
+    match &t[..t.len() - 1] {
+        "int" => Ty::Int,
+        "float" => Ty::Float,
+        "bool" => Ty::Bool,
+        other => panic!("unknown case tag {other}"),
+    }
+}
+
+// ------------------------------------------------------------------ spec -> impl
+
+fn replay(path: &str) -> Value {
+    let cases = read_ndjson(path);
+    let mut cache = Cache::default();
+    let mut mm = Mismatches::new(300);
+    let mut st = Stats::new();
+    let mut samples = vec![];
+    for (idx, c) in cases.iter().enumerate() {
+        let t = c["t"].as_str().unwrap();
+        let ty = ty_of_tag(t);
+        let op = c["op"].as_str().unwrap();
+        let a = Sc::from_wire(ty, &c["a"]);
+        let binary = t.ends_with('2');
+        let b = if binary { Some(Sc::from_wire(ty, &c["b"])) } else { None };
+        let expected = out_from_wire(&c["r"]);
+        let expected_cell = c.get("cell").map(out_from_wire);
+        let runs = match b {
+            Some(b) => exec_binary(op, a, b, &mut cache, false),
+            None => exec_unary(op, a, &mut cache),
+        };
+        st.note(op, a, b, &runs);
+        for r in &runs {
+            if r.out != expected {
+                let mut d = case_json(t, op, a, b);
+                d["form"] = json!(r.form);
+                d["program"] = json!(r.program);
+                d["expected"] = out_show(&expected);
+                d["got"] = out_show(&r.out);
+                d["reported_by"] = json!(r.phase);
+                mm.push(r.form, d);
+            } else if let (Some(ec), true) = (&expected_cell, r.form.starts_with("asg")) {
+                // content of the cell after the compound assignment (when observable)
+                let observable = r.form == "asg_lit" || !matches!(r.out, Out::Err(_));
+                if observable && r.cell.as_ref() != Some(ec) {
+                    let mut d = case_json(t, op, a, b);
+                    d["form"] = json!(r.form);
+                    d["program"] = json!(r.program);
+                    d["expected_cell"] = out_show(ec);
+                    d["got_cell"] = r.cell.as_ref().map(out_show).unwrap_or(json!(null));
+                    mm.push("cell_after_assignment", d);
+                }
+            }
+        }
+        if idx % (cases.len() / 5 + 1) == 7 {
+            samples.push(json!({"case": case_json(t, op, a, b), "spec": out_show(&expected),
+                "impl": runs.iter().map(|r| json!({"form": r.form, "program": r.program, "got": out_show(&r.out)})).collect::<Vec<_>>()}));
+        }
+    }
+    let mut res = st.json();
+    res["mismatch_counts"] = mm.counts();
+    res["mismatches"] = mm.items();
+    res["samples"] = json!(samples);
+    res
+}
+
+// ------------------------------------------------------------------ impl -> spec
+
+fn rand_int(rng: &mut Rng) -> i64 {
+    match rng.below(10) {
+        0..=3 => rng.next() as i64,
+        4 => (rng.next() % 256) as i64 - 128,
+        5 => (rng.next() % (1 << 17)) as i64 - (1 << 16),
+        6 => (rng.next() % (1u64 << 33)) as i64 - (1i64 << 32),
+        7 => {
+            // +-2^k + d
+            let k = rng.below(64) as u32;
+            let d = rng.below(5) as i64 - 2;
+            let p = (1u64 << k) as i64;
+            (if rng.chance(1, 2) { p } else { p.wrapping_neg() }).wrapping_add(d)
+        }
+        8 => i64::MIN.wrapping_add((rng.next() % 4) as i64),
+        _ => i64::MAX.wrapping_sub((rng.next() % 4) as i64),
+    }
+}
+
+const INT_BIN: [&str; 17] = ["+", "-", "*", "/", "%", "**", "<<", ">>", "&", "|", "^", "==", "!=", "<", "<=", ">", ">="];
+
+fn rand_int_case(rng: &mut Rng) -> (&'static str, i64, i64) {
+    let op = *rng.pick(&INT_BIN);
+    let a = rand_int(rng);
+    let b = match op {
+        "<<" | ">>" => match rng.below(10) {
+            0..=5 => rng.below(64) as i64,
+            6 => 64 + rng.below(3) as i64,
+            7 => -1 - rng.below(64) as i64,
+            _ => rand_int(rng),
+        },
+        "**" => match rng.below(20) {
+            0..=7 => rng.below(70) as i64,
+            8..=12 => (rng.next() >> 1) as i64,                           // huge non-negative
+            13..=14 => (1i64 << 32) + rng.below(1 << 20) as i64 - (1 << 19), // around 2^32
+            15 => (1i64 << 32) * (1 + rng.below(1000) as i64),            // multiples of 2^32
+            16..=17 => -1 - (rng.next() >> 1) as i64,
+            _ => -1 - rng.below(3) as i64,
+        },
+        "/" | "%" => match rng.below(20) {
+            0 => 0,
+            1 => -1,
+            2 => 1,
+            3..=9 => {
+                let d = 2 + rng.below(1000) as i64;
+                if rng.chance(1, 2) { d } else { -d }
+            }
+            _ => rand_int(rng),
+        },
+        "==" | "!=" | "<" | "<=" | ">" | ">=" => match rng.below(4) {
+            0 => a,
+            1 => a.wrapping_add(rng.below(3) as i64 - 1),
+            _ => rand_int(rng),
+        },
+        _ => rand_int(rng),
+    };
+    (op, a, b)
+}
+
+fn rand_float(rng: &mut Rng, grid: &[u64]) -> u64 {
+    match rng.below(10) {
+        0..=2 => rng.next(),                                             // any pattern (all exponents, NaNs)
+        3..=4 => ((rng.below(2001) as f64 - 1000.0) / 8.0).to_bits(),   // small dyadic numbers
+        5 => (rng.next() as i64 as f64 / 1e6).to_bits(),
+        6 => {
+            // around 1.0, a few ulps
+            (1.0f64.to_bits() + rng.below(9) as u64 - 4) ^ (if rng.chance(1, 4) { 1 << 63 } else { 0 })
+        }
+        7 => rng.next() & 0x800f_ffff_ffff_ffff,                         // subnormals and zeros
+        _ => if grid.is_empty() { rng.next() } else { *rng.pick(grid) },
+    }
+}
+
+const FLOAT_BIN: [&str; 11] = ["+", "-", "*", "/", "**", "==", "!=", "<", "<=", ">", ">="];
+
+#[inline(never)]
+fn host_float(op: &str, a: f64, b: f64) -> f64 {
+    let (a, b) = (std::hint::black_box(a), std::hint::black_box(b));
+    match op {
+        "+" => a + b,
+        "-" => a - b,
+        "*" => a * b,
+        "/" => a / b,
+        "**" => a.powf(b),
+        other => panic!("no host arithmetic for {other}"),
+    }
+}
+
+fn record(out_path: &str, n_int: usize, n_float: usize, cases_path: Option<&str>) -> Value {
+    let mut rng = Rng::from_env(0xC08);
+    let mut cache = Cache::default();
+    let mut mm = Mismatches::new(300);
+    let mut st = Stats::new();
+    let mut file = std::io::BufWriter::new(std::fs::File::create(out_path).expect("cannot create the trace file"));
+    let mut records = 0u64;
+    let mut samples = vec![];
+    let emit = |file: &mut std::io::BufWriter<std::fs::File>, t: &str, op: &str, a: Sc, b: Option<Sc>, runs: &[FormRun]| {
+        let rs: Vec<Value> = runs.iter().map(|r| json!({"f": r.form, "r": out_json(&r.out)})).collect();
+        let cells: Vec<Value> = runs.iter()
+            .filter(|r| r.form.starts_with("asg") && (r.form == "asg_lit" || !matches!(r.out, Out::Err(_))))
+            .map(|r| json!({"f": r.form, "r": r.cell.as_ref().map(out_json).unwrap_or(json!({"k": "missing"}))}))
+            .collect();
+        let mut rec = json!({"t": t, "op": op, "a": a.wire(), "as": a.show(), "rs": rs, "cells": cells});
+        if let Some(b) = b {
+            rec["b"] = b.wire();
+            rec["bs"] = json!(b.show());
+        }
+        writeln!(file, "{}", serde_json::to_string(&rec).unwrap()).unwrap();
+    };
+    // --- integers: random stream over all of i64
+    let mut earlier: Vec<(&'static str, i64, i64)> = vec![];
+    for i in 0..n_int {
+        if i % 12 == 11 {
+            let op = if rng.chance(1, 2) { "neg" } else { "not" };
+            let a = Sc::I(rand_int(&mut rng));
+            let runs = exec_unary(op, a, &mut cache);
+            st.note(op, a, None, &runs);
+            emit(&mut file, "int1", op, a, None, &runs);
+            records += 1;
+            continue;
+        }
+        let (op, a, b) = if i % 16 == 15 && !earlier.is_empty() { *rng.pick(&earlier) } else { rand_int_case(&mut rng) };
+        if earlier.len() < 64 { earlier.push((op, a, b)); }
+        let (a, b) = (Sc::I(a), Sc::I(b));
+        let runs = exec_binary(op, a, b, &mut cache, false);
+        st.note(op, a, Some(b), &runs);
+        if i % (n_int / 3 + 1) == 5 {
+            samples.push(json!({"case": case_json("int2", op, a, Some(b)),
+                "impl": runs.iter().map(|r| json!({"form": r.form, "got": out_show(&r.out)})).collect::<Vec<_>>()}));
+        }
+        emit(&mut file, "int2", op, a, Some(b), &runs);
+        records += 1;
+    }
+    // --- floats: the grid of the specification (all pairs, arithmetic operators) and a random stream
+    let mut grid: Vec<u64> = vec![];
+    if let Some(p) = cases_path {
+        for c in read_ndjson(p) {
+            if c["t"] == "float1" {
+                grid.push(from_limbs(&c["a"]));
+            }
+        }
+    }
+    let mut float_cases: Vec<(&'static str, u64, u64)> = vec![];
+    for &a in &grid {
+        for &b in &grid {
+            for op in &FLOAT_BIN[..5] {
+                float_cases.push((op, a, b));
+            }
+        }
+    }
+    for i in 0..n_float {
+        if i % 10 == 9 && !float_cases.is_empty() {
+            let again = *rng.pick(&float_cases);
+            float_cases.push(again);
+        } else {
+            let op = *rng.pick(&FLOAT_BIN);
+            let a = rand_float(&mut rng, &grid);
+            let b = if rng.chance(1, 8) { a } else { rand_float(&mut rng, &grid) };
+            float_cases.push((op, a, b));
+        }
+    }
+    let mut ieee_checked = 0u64;
+    for (i, (op, a, b)) in float_cases.iter().enumerate() {
+        let (sa, sb) = (Sc::F(*a), Sc::F(*b));
+        let runs = exec_binary(op, sa, sb, &mut cache, i % 4 == 0);
+        st.note(op, sa, Some(sb), &runs);
+        if !CMP.contains(op) {
+            // the IEEE-754 result itself: the host's f64 arithmetic is the reference (not expressible in TLA+)
+            let host = host_float(op, f64::from_bits(*a), f64::from_bits(*b)).to_bits();
+            for r in &runs {
+                ieee_checked += 1;
+                if r.out != Out::F(host) {
+                    let mut d = case_json("float2", op, sa, Some(sb));
+                    d["form"] = json!(r.form);
+                    d["program"] = json!(r.program);
+                    d["expected"] = out_show(&Out::F(host));
+                    d["got"] = out_show(&r.out);
+                    mm.push("ieee", d);
+                }
+                if r.form.starts_with("asg") && r.cell.as_ref() != Some(&Out::F(host)) {
+                    let mut d = case_json("float2", op, sa, Some(sb));
+                    d["form"] = json!(r.form);
+                    d["program"] = json!(r.program);
+                    d["expected_cell"] = out_show(&Out::F(host));
+                    d["got_cell"] = r.cell.as_ref().map(out_show).unwrap_or(json!(null));
+                    mm.push("ieee", d);
+                }
+            }
+        }
+        if i % (float_cases.len() / 3 + 1) == 11 {
+            samples.push(json!({"case": case_json("float2", op, sa, Some(sb)),
+                "impl": runs.iter().map(|r| json!({"form": r.form, "got": out_show(&r.out)})).collect::<Vec<_>>()}));
+        }
+        emit(&mut file, "float2", op, sa, Some(sb), &runs);
+        records += 1;
+    }
+    // unary minus on random floats
+    for _ in 0..(n_float / 10) {
+        let a = Sc::F(rand_float(&mut rng, &grid));
+        let runs = exec_unary("neg", a, &mut cache);
+        st.note("neg", a, None, &runs);
+        emit(&mut file, "float1", "neg", a, None, &runs);
+        records += 1;
+    }
+    file.flush().unwrap();
+    let mut res = st.json();
+    res["records"] = json!(records);
+    res["ieee_results_compared_with_host"] = json!(ieee_checked);
+    res["float_grid"] = json!(grid.len());
+    res["mismatch_counts"] = mm.counts();
+    res["mismatches"] = mm.items();
+    res["samples"] = json!(samples);
+    res
+}
+
+pub fn run(args: &[String]) -> Value {
+    match args.first().map(String::as_str) {
+        Some("replay") => replay(&args[1]),
+        Some("record") => record(
+            &args[1],
+            args.get(2).and_then(|s| s.parse().ok()).unwrap_or(1000),
+            args.get(3).and_then(|s| s.parse().ok()).unwrap_or(300),
+            args.get(4).map(String::as_str),
+        ),
+        _ => {
+            eprintln!("usage: vh arith replay <cases.ndjson> | vh arith record <out.ndjson> <n_int> <n_float> [<cases.ndjson>]");
+            std::process::exit(2);
+        }
+    }
 }
